@@ -9,7 +9,7 @@ from oracles import oracle_c10
 
 
 def gen(rng):
-    pr = Profile(nodes=[1, 2, 3], unknown_node=0.15, p_send=0.0, p_manip=0.0, p_fault=0.3, restore=0.3, max_len=22,
+    pr = Profile(nodes=[1, 2, 3], unknown_node=0.15, p_send=0.0, p_manip=0.0, p_fault=0.3, restore=0.3, max_len=22, p_reconnect=0.06,
                  start_versions=[None, "1.4", "1.5", "2.0", "2.0", "2.1", "2.2", "2.2"],
                  weights=dict(node_pres=2.5, gw_pres=0.2, child_pres=2, set=4, req=2, battery=2, time=0.3, version=0.6,
                               id_request=0.3, config=0.3, log=0.3, sketch=2, gw_ready=0.3, discover_resp=1.5,
